@@ -966,6 +966,16 @@ impl ReCompiler {
             let ret = Operation::from(Atom::new(self.pattern.clone()));
             let end_node = Operation::from(EndProgram);
             let seq = Self::make_sequence(ret, end_node);
+            #[cfg(regexml_verif)]
+            if crate::verif::no_optimize() {
+                return Ok(crate::verif::bare_program(
+                    self.pattern,
+                    seq,
+                    self.capturing_open_paren_count,
+                    self.re_flags.clone(),
+                    false,
+                ));
+            }
             Ok(ReProgram::new(
                 self.pattern,
                 seq,
@@ -1020,6 +1030,16 @@ impl ReCompiler {
                     return Err(Error::syntax("Unmatched close paren"));
                 }
                 return Err(Error::syntax("Unexpected input remains"));
+            }
+            #[cfg(regexml_verif)]
+            if crate::verif::no_optimize() {
+                return Ok(crate::verif::bare_program(
+                    self.pattern,
+                    operation,
+                    self.capturing_open_paren_count,
+                    self.re_flags.clone(),
+                    self.has_back_references,
+                ));
             }
             let operation = operation.optimize(&self.re_flags);
 
